@@ -197,7 +197,7 @@ theorem fromNetwork_congr (b : Bool) (t₁ t₂ : Tab) (path : Str) (u : SUnit) 
 theorem fromVolume_congr (b : Bool) (t₁ t₂ : Tab) (path : Str) (u : SUnit)
     (h : AgreeOn (match lookup u (s "Volume") (s "Image") with | some img => imageRefs img | none => []) t₁ t₂) :
     fromVolume (envOf b t₁) path u = fromVolume (envOf b t₂) path u := by
-  unfold fromVolume
+  unfold fromVolume volumeOpts
   cases hi : lookup u (s "Volume") (s "Image") with
   | none => simp only [hi, baseCmd_congr b t₁ t₂]
   | some img =>
